@@ -35,9 +35,14 @@ for p in props:
         "level_note": getattr(m, "LEVEL_NOTE", "trusted base and assumptions are listed per run in the evidence file "
                               "(coverage.trusted_base, assumptions); bounded-tier results are a stand-in / cross-check and "
                               "are never counted as proved"),
-        "technique": getattr(m, "TECHNIQUE", "contract-based deductive verification of the real source (pyvc: sidecar "
-                             "contracts, loop invariants, ghost state, lemmas, relational obligations; VCs from the "
-                             "Python AST discharged by z3 / cvc5)"),
+        "technique": getattr(m, "TECHNIQUE", (
+            "contract-based deductive verification of the real source (pyvc: sidecar contracts, loop invariants, ghost "
+            "state, lemmas, relational obligations; VCs from the Python AST discharged by z3 5.1 after lambda lifting, "
+            "z3 4.8.12 / cvc5 for its unknowns)") if level == "proof" else (
+            "the property as a whole is decided by the bounded stand-in (same contracts as run-time monitors + differential "
+            "oracles over a stated bounded space; labelled bounded, never counted as proved); contract-based deductive "
+            "verification (pyvc; z3 after lambda lifting, z3 4.8.12 / cvc5 for unknowns) discharges, on every run and for "
+            "all inputs, the obligations of the functions and lemmas named in level_claimed.text")),
     })
 man = {
     "version": 1,
@@ -57,7 +62,7 @@ man = {
          "kind_free_text": "contract-based deductive verifier for the real menelaus source: Python AST -> verification "
                            "conditions (path-sensitive symbolic execution, loops cut by invariants, modular callee "
                            "contracts, ghost state, lemmas by induction, two-run relational obligations), discharged by "
-                           "z3 5.1 with cvc5 as second solver"},
+                           "z3 5.1 after lambda lifting (see DESIGN.md 14.6), the Debian z3 4.8.12 binary and cvc5 for its unknowns"},
         {"name": "bounded", "path": "bounded/", "serves_properties": served,
          "kind_free_text": "the same sidecar contracts evaluated concretely (z3-free) as run-time monitors on the real "
                            "classes, plus differential oracles, over a stated bounded space; stand-in, replay and "
